@@ -6,6 +6,8 @@
 # be built or an artifact does not reproduce; 0 otherwise. Summary lines: FUZZ target=.. execs=.. cov=..
 set -u
 export CARGO_NET_OFFLINE=true
+# leaks are not part of C08 (and the harness keeps global caches): no LeakSanitizer report at exit
+export ASAN_OPTIONS=detect_leaks=0
 T="${1:-all}"; RUNS="${2:-200000}"; SEED="${3:-${VERIF_SEED:-0}}"
 # libFuzzer treats -seed=0 as "random": remap
 LSEED=$(( (SEED % 2147483000) + 1 ))
@@ -26,7 +28,9 @@ for t in $TARGETS; do
     C=/verif/work/fuzz-corpus-$t-$$; rm -rf "$C"; mkdir -p "$C"
     [ -d fuzz/seeds/$t ] && cp fuzz/seeds/$t/* "$C"/ 2>/dev/null
     A=/verif/replays/C08/fuzz-$t-
-    "$BIN/$t" "$C" -runs="$RUNS" -seed="$LSEED" -len_control=0 -max_len=8192 -timeout=30 -rss_limit_mb=4096 -detect_leaks=0 \
+    # fixed work per target, scaled by its speed (structured: ~150 exec/s, pipeline: ~1.5k, parsers: ~6k)
+    case $t in structured) R=$((RUNS/20));; pipeline) R=$((RUNS/4));; *) R=$RUNS;; esac
+    "$BIN/$t" "$C" -runs="$R" -seed="$LSEED" -len_control=0 -max_len=8192 -timeout=30 -rss_limit_mb=4096 -detect_leaks=0 \
         -artifact_prefix="$A" -print_final_stats=1 >/verif/work/fuzz-$t-$$.log 2>&1
     code=$?
     execs=$(grep -E "stat::number_of_executed_units" /verif/work/fuzz-$t-$$.log | awk '{print $2}')
